@@ -298,7 +298,7 @@ func cmdEntropy(args []string) int {
 		go func(i int) {
 			defer wg.Done()
 			defer func() { <-sem }()
-			if !guard(func() { evs[i] = runEntropy(cases[i]) }) {
+			if !guardBytes(cases[i].Len, func() { evs[i] = runEntropy(cases[i]) }) {
 				evs[i] = tr.Ev{"ev": "ENT", "id": cases[i].ID, "codec": cases[i].Codec, "len": cases[i].Len, "fam": cases[i].Fam, "lead": cases[i].Lead,
 					"enc": "hang", "dec": "none", "encBits": 0, "decBits": 0, "same": false, "sentinel": false, "msg": "encoder or decoder did not return"}
 			}
